@@ -289,6 +289,13 @@ func (p *Packer) packWalkFn(root, src, dst string, tarW *tar.Writer, meta *Meta,
 				return filepath.Walk(resolved.absTarget, p.packWalkFn(root, resolved.absTarget, path, tarW, meta, ignoreRules))
 			}
 
+			// The target may be something that cannot be archived (fifo, socket,
+			// device). Such files are skipped when they are met in the tree itself;
+			// skip them here too instead of opening them (opening a fifo blocks).
+			if keep, _ := checkFileMode(resolved.info.Mode()); !keep {
+				return nil
+			}
+
 			// Dereference this symlink by updating the header with the target file
 			// details and set writeBody to true so the body will be written.
 			header.Typeflag = tar.TypeReg
